@@ -9,6 +9,9 @@ Correspondence streams (real batched code vs the model in 192-bit arithmetic, pr
   logneg  : (element with -q).Log()         vs  <T>.LogNeg
   loginv  : X.Inv().Log()                   vs  <T>.LogInv
   logexp  : x.Exp().Log()                   vs  <t>.LogExp
+  dispatch: LieTensor(data, ltype).Log()/.Exp()/.Inv() for all eight ltypes × batch shapes (incl. empty batch, wrong last extent):
+            returned ltype / shape / values or the kind of refusal vs lie.Log / lie.Exp / lie.Inv of Pose/Model/LieDispatch.lean;
+            the LieType table vs ltype.table; torch.finfo(dtype).eps vs dtype.eps (exact)
 Near a branch threshold the model is also evaluated with eps·(1±δ) and either result is accepted.
 
 Oracles on the real code (the property's own clauses; a hit is a failing input)
@@ -46,15 +49,16 @@ META = {
     "partial": [
         "rounding: every clause 'with the accuracy stated in C01' is theorem (exact identity / explicit bound over the reals) + "
         "measured agreement of the float code with the 192-bit model at the property's tolerances",
-        "Exp(Log X) for ‖v‖ <= eps (regime 3): SO3_exp_log_regime3_partial proves the logarithm is within 2‖v‖^5/(5|w|^5) of the exact "
-        "principal logarithm and has norm <= 2; the composition with the two branches of so3Exp (O(eps^3) defect) rides on the "
-        "explog stream",
-        "Log(Inv X) = -Log X: SO3 and RxSO3 proved for every input; SE3_log_inv_partial / Sim3_log_inv_partial cover regime 1 of the "
-        "quaternion logarithm (and, for Sim3, |log s| > eps or s = 1); in the eps-thin remaining regimes the translation part agrees "
-        "to O(eps)·‖t‖ only, measured by the loginv stream and oracle",
-        "Log(Exp x) = x: SO3 proved on all of [0, π] (zero, Taylor branch with |δ| <= θ^4/50, gap band, exact band π·eps<θ<π(1-eps), "
-        "near π within π·eps); SE3/RxSO3/Sim3 proved exactly for zero rotation and on the band π·eps<θ<π(1-eps); their translation part "
-        "in the eps-thin bands next to 0 and π rides on the logexp stream",
+        "Exp(Log X): proved for EVERY valid element (SO3_exp_log_all, Sim3/RxSO3/SE3_exp_log_all, *_exp_log_blocks; regime 3 in "
+        "full: SO3_exp_log_regime3); only SE3 with a rotation by less than eps keeps an explicit 1+O(θ^4) translation factor "
+        "(SE3_exp_log_blocks) instead of exactness",
+        "Log(Inv X) = -Log X: SO3 and RxSO3 for every input; SE3/Sim3 exactly in regime 1 (…_partial) and in backward form with the "
+        "bound ‖t̃-t‖² <= 8·eps²·‖t‖² for every recovered angle above eps (SE3_log_inv_backward, Sim3_log_inv_backward, "
+        "log_inv_backward_bound). Still only measured (loginv stream): rotations by less than eps, and Sim3 with 0 < |log s| <= eps "
+        "(series regime of rxso3_Ws, where the code uses C = 1 although the scale is not exactly 1)",
+        "Log(Exp x) = x: SO3 proved on all of [0, π]; uniqueness in the principal ball proved for all four groups "
+        "(*Exp_inj_principal, SO3_log_unique); SE3/RxSO3/Sim3 exact for zero rotation and on the band π·eps<θ<π(1-eps); their "
+        "translation part in the eps-thin bands next to 0 and π rides on the logexp stream",
         "within 8 ulp (of the dtype) of an odd multiple of π the sign of w = cos(θ/2) is decided by rounding: there Log(Exp x) is "
         "checked as a transformation (Exp(Log(Exp x)) = Exp(x)), and the clause 'angle below π' is applied 4 ulp away from π",
     ],
@@ -256,6 +260,22 @@ def make_alg_case(rng, name, dtype, ci):
     return {"kind": "alg", "type": name, "dtype": dtype, "shape": list(shape), "x": x64.tolist(), "tags": tags, "id": ci}
 
 
+def guarded(fn):
+    """kind 8: if the implementation returns something that is not what the API documents (a plain Tensor instead of a LieTensor,
+    a wrong rank, None …) the analysis code below trips over it — that is a misbehaviour of the implementation on this case, to
+    be reported with the case, never a crash of the harness (exit 2 would hide it). The clean tree never reaches this."""
+    import functools
+
+    @functools.wraps(fn)
+    def wrapper(ctx, case, *a, **kw):
+        try:
+            return fn(ctx, case, *a, **kw)
+        except (AttributeError, TypeError, IndexError, ValueError) as ex:
+            ctx.fail({k: v for k, v in case.items() if k != "tags"},
+                     f"type {case.get('type')}: the result of Log/Exp/Inv is not the documented LieTensor ({type(ex).__name__}: {str(ex)[:120]})")
+    return wrapper
+
+
 # ----------------------------------------------------------------------------- one case on the real code
 
 def small(case, i, **kw):
@@ -273,6 +293,7 @@ def negq(name, Xt):
     return Y
 
 
+@guarded
 def eval_group_case(ctx: Ctx, case, pend):
     P = U.pp()
     name, dtype = case["type"], case["dtype"]
@@ -291,6 +312,9 @@ def eval_group_case(ctx: Ctx, case, pend):
         EL = L.Exp()
         LN = P.LieTensor(negq(name, Xt), ltype=U.ltype(name)).Log()
         LI = X.Inv().Log()
+        LA = L.Inv()             # the API's own negation on the algebra
+        if not torch.equal(torch.nan_to_num(LA.tensor(), nan=1e33), torch.nan_to_num(-L.tensor(), nan=1e33)):
+            ctx.fail(case, f"alginv {name}: Inv() of the algebra element Log(X) is not -Log(X) ({dtype})")
     except Exception as e:
         ctx.fail(case, f"raises {name}: Log/Exp/Inv raised {type(e).__name__}: {str(e)[:150]}")
         return
@@ -355,6 +379,7 @@ def eval_group_case(ctx: Ctx, case, pend):
     ctx.note_case(("group", name, dtype, tuple(sorted(set(case.get("tags", []))))[:4], shape), True)
 
 
+@guarded
 def eval_alg_case(ctx: Ctx, case, pend):
     P = U.pp()
     name, dtype = case["type"], case["dtype"]
@@ -657,10 +682,11 @@ def order_probe_finish(ctx: Ctx, spec, p):
     except Exception as e:
         raise common.InfraError(f"order probe did not finish: {e}")
     if rc != 0:
-        if "/pypose/" in err:
-            ctx.fail({"kind": "order", "stream": "order"}, f"order raises: a fresh interpreter calling float32 first raised: {err[-300:]}")
-            return
-        raise common.InfraError(f"order probe crashed: {err[-400:]}")
+        if rc < 0 or "ModuleNotFoundError" in err or "MemoryError" in err or "ImportError" in err:
+            raise common.InfraError(f"order probe crashed: {err[-400:]}")
+        # the probe script itself only calls Exp / Log and reads .tensor(): anything else that trips it is the implementation
+        ctx.fail({"kind": "order", "stream": "order"}, f"order raises: a fresh interpreter calling float32 first failed: {err.strip().splitlines()[-1][:200] if err.strip() else rc}")
+        return
     other = json.loads(out)
     for dtype in ("float64", "float32"):
         D = U.dt(dtype)
@@ -766,6 +792,7 @@ def ops_of(kind, name):
     return {"Exp": (lambda o: o.Exp(), "grp"), "Log(Exp)": (lambda o: o.Exp().Log(), "alg")}
 
 
+@guarded
 def check_views_and_batch(ctx: Ctx, case):
     """(a) item-wise = batched: every op on the (mixed-regime) batch equals the same op on each item alone;
     (b) views: the same batch presented as a strided slice of a larger buffer, as a permuted (non-contiguous) tensor, as an
@@ -845,6 +872,124 @@ def check_views_and_batch(ctx: Ctx, case):
             ctx.fail(case, f"raises {name}: {label} on aliased LieTensors raised {type(ex).__name__}: {str(ex)[:120]}")
 
 
+# ----------------------------------------------------------------------------- glue: dispatch, shapes, dtype threshold
+
+LTYPES = ["SO3", "so3", "SE3", "se3", "Sim3", "sim3", "RxSO3", "rxso3"]
+GROUP_OF = {"so3": "SO3", "se3": "SE3", "sim3": "Sim3", "rxso3": "RxSO3"}
+
+
+def run_dispatch(ctx: Ctx):
+    """the wrappers between the user's call and the modelled cores (lean/Pose/Model/LieDispatch.lean):
+    (a) the LieType table (dimension, embedding, manifold, on_manifold) of the eight singletons;
+    (b) torch.finfo(dtype).eps for the four floating dtypes — exact equality with the model's DType.eps;
+    (c) LieTensor(data, ltype=t).Log() / .Exp() / .Inv() for all eight types × batch shapes (rank 1..3, empty batch, wrong last
+        extent): returned ltype, shape and values, or the kind of the refusal (AssertionError of the constructor, AttributeError
+        of LieType.Log/Exp), against the model's lieLog / lieExp / lieInv evaluated with the model's own dtype threshold."""
+    P = U.pp()
+    rng = ctx.rng
+    # (a)
+    reps = ctx.driver.run([f"ltype.table {t}" for t in LTYPES])
+    for t, rep in zip(LTYPES, reps):
+        lt = getattr(P, t + "_type")
+        got = [int(lt.dimension[0]), int(lt.embedding[0]), int(lt.manifold[0]), 1 if lt.on_manifold else 0]
+        st, toks = common.parse_reply(rep)
+        ctx.count("dispatch.table")
+        ctx.note_case(("dispatch.table", t), True)
+        if st != "ok" or [int(x) for x in toks] != got:
+            ctx.fail({"kind": "dispatch", "type": t}, f"table {t}: (dimension, embedding, manifold, on_manifold) of {t}_type is {got}, documented/model {rep}")
+    # (b)
+    dts = ["float64", "float32", "float16", "bfloat16"]
+    reps = ctx.driver.run([f"dtype.eps {d}" for d in dts])
+    for d, rep in zip(dts, reps):
+        got = torch.finfo(getattr(torch, d)).eps
+        ctx.count("dispatch.eps")
+        ctx.note_case(("dispatch.eps", d), True)
+        if common.reply_nums(rep)[0] != common.fr(got):
+            ctx.disagree("dispatch", {"kind": "dispatch", "dtype": d}, f"torch.finfo({d}).eps = {got!r} differs from the model's DType.eps")
+    # (c)
+    lines, metas = [], []
+    for t in LTYPES:
+        grp = t not in GROUP_OF
+        gname = t if grp else GROUP_OF[t]
+        lt = getattr(P, t + "_type")
+        d0 = U.GDIM[gname] if grp else U.ADIM[gname]
+        for dtype in ("float64", "float32"):
+            eps = common.EPS[dtype]
+            D = U.dt(dtype)
+            anchors = anchor_quats(eps)
+            for si, shape in enumerate([(d0,), (2, d0), (3, d0), (1, 3, d0), (2, 1, 2, d0), (0, d0), (3, d0 + 1), (d0 - 1,), (2, d0 + 2)]):
+                n = int(math.prod(shape[:-1]))
+                rows = []
+                for kk in range(n):
+                    if shape[-1] != d0:
+                        rows.append([0.25 * (j + 1) for j in range(shape[-1])])
+                    elif grp:
+                        rows.append(gen_group_item(rng, gname, eps, anchors, kk)[0])
+                    else:
+                        rows.append(gen_alg_item(rng, gname, eps)[0])
+                T = torch.tensor(rows, dtype=torch.float64).reshape(shape).to(D) if n else torch.zeros(shape, dtype=D)
+                for op in ("Log", "Exp", "Inv"):
+                    case = {"kind": "dispatch", "type": t, "dtype": dtype, "shape": list(shape), "op": op, "data": T.double().reshape(-1).tolist()}
+                    ctx.count(f"dispatch.{op}.{t}")
+                    ctx.note_case(("dispatch", op, t, dtype, shape), True)
+                    try:
+                        X = P.LieTensor(T.clone(), ltype=lt)
+                        Y = getattr(X, op)()
+                        got = ("ok", [k2 for k2 in LTYPES if getattr(P, k2 + "_type") is Y.ltype or getattr(P, k2 + "_type") == Y.ltype][:1],
+                               list(Y.shape), Y.tensor().double().reshape(-1).tolist())
+                    except (AssertionError, AttributeError, NotImplementedError) as ex:
+                        got = ("err", type(ex).__name__)
+                    except Exception as ex:
+                        if n == 0:       # an empty batch reaching a LAPACK kernel: outside the documented usage — observation only
+                            ctx.count(f"dispatch-observation.empty-batch {op} {t} raises {type(ex).__name__}")
+                            continue
+                        ctx.fail(case, f"raises {t}: {op} on shape {shape} raised {type(ex).__name__}: {str(ex)[:120]} ({dtype})")
+                        continue
+                    lines.append(f"lie.{op} {t} {dtype} {len(shape)} " + " ".join(map(str, shape)) + (" " + common.wire_list(case["data"]) if case["data"] else ""))
+                    metas.append((case, got, gname))
+    reps = ctx.driver.run(lines)
+    for rep, (case, got, gname) in zip(reps, metas):
+        st, toks = common.parse_reply(rep)
+        t, op, dtype, shape = case["type"], case["op"], case["dtype"], tuple(case["shape"])
+        if st == "err":
+            want = ("err", toks)
+            if got[0] != "err" or got[1] != toks:
+                ctx.fail(case, f"dispatch {t}: {op} on shape {shape} ({dtype}) — the code {'returns a result' if got[0] == 'ok' else 'raises ' + got[1]}, "
+                         f"the documented behaviour (model) is {toks}")
+            continue
+        tname, rk = toks[0], int(toks[1])
+        wshape = [int(x) for x in toks[2:2 + rk]]
+        wvals = U.fl([common.from_wire(x) for x in toks[2 + rk:]])
+        if got[0] != "ok":
+            ctx.fail(case, f"dispatch {t}: {op} on shape {shape} ({dtype}) raises {got[1]} although the input is valid (model: {tname} of shape {wshape})")
+            continue
+        if got[1] != [tname] or got[2] != wshape:
+            ctx.fail(case, f"dispatch {t}: {op} on shape {shape} ({dtype}) returns ltype {got[1]} shape {got[2]}, expected {tname} {wshape}")
+            continue
+        w = wshape[-1]
+        out_grp = tname not in GROUP_OF
+        for i in range(len(wvals) // w if w else 0):
+            g_i, w_i = got[3][i * w:(i + 1) * w], wvals[i * w:(i + 1) * w]
+            if not finite(g_i):
+                ctx.fail(case, f"nonfinite {t}: {op} produced nan/inf in item {i} of shape {shape} ({dtype})")
+                break
+            src = case["data"][i * shape[-1]:(i + 1) * shape[-1]]
+            tsl = U.TSL[gname] if (t not in GROUP_OF) else U.TAUSL[gname]
+            tsc = norm(src[tsl]) if tsl is not None else 0.0
+            if out_grp:
+                r = grp_err(gname, g_i, w_i, dtype, max(tsc, norm(w_i[U.TSL[gname]]) if U.TSL[gname] is not None else 0.0))
+            else:
+                r = alg_err(gname, g_i, w_i, dtype, tsc, phisc=(norm(src[U.PHISL[gname]]) if t in GROUP_OF else 0.0))
+            if op == "Inv" and t in GROUP_OF and g_i != [-v for v in src]:
+                ctx.fail(case | {"item": i}, f"alginv {t}: Inv() of an algebra element is not its negation ({dtype}): {g_i} for {src}")
+                break
+            if any(not v <= 1.0 for v in r.values()):
+                # threshold ambiguity is handled by the item streams; here only gross differences matter
+                if any(not v <= 64.0 for v in r.values()):
+                    ctx.disagree("dispatch", case | {"item": i}, f"lie.{op} {t} {dtype} shape {shape}: item {i} implementation vs model, error/tolerance {r}")
+                    break
+
+
 # ----------------------------------------------------------------------------- API forms, grad modes, copies, memory, sizes
 
 def teq(a, b):
@@ -856,6 +1001,7 @@ def raw(t):
     return t.detach().clone()
 
 
+@guarded
 def check_api_forms(ctx: Ctx, case, forms=True):
     """kinds 10/12/13/14/15 on one batch: every accepted way of making the same call must return the same VALUES
     (function vs method vs ltype method, LieTensor vs plain Tensor vs Parameter, named constructor; plain vs requires_grad leaf
@@ -1215,6 +1361,7 @@ def run(ctx: Ctx):
     run_anchor_sweep(ctx)
     run_algebra_sweep(ctx)
     run_shape_sweep(ctx)
+    run_dispatch(ctx)
     interleave_probe(ctx, spec)
     error_atomic_probe(ctx, spec)
     run_cases(ctx, ctx.pick(250, 9000), ctx.pick(170, 6000))
